@@ -82,8 +82,8 @@ let handle toks = match toks with
   | ["GB"; kind; v; db] ->
       (match get_backend t (barg_of kind v) (cfg_of db "-" "0" "0") with
        | Ok c -> "OK " ^ show_cls c | Err e -> err e)
-  | ["PRIM"; fn; p; d; arg; acyclic; explicit] ->
-      show_ops (emits t (cs_of_string fn) (cfg_of "." "-" p d) (arg_of arg) (bool_of acyclic) (bool_of explicit))
+  | ["PRIM"; fn; p; d; arg; acyclic; explicit; dd] ->
+      show_ops (emits t (cs_of_string fn) (cfg_of "." "-" p d) (arg_of arg) (bool_of acyclic) (bool_of explicit) (bool_of dd))
   | ["SITE"; fn; p; d; arg; acyclic] ->
       (match resolve_primitive t (cs_of_string fn) (cfg_of "." "-" p d) (arg_of arg) (bool_of acyclic) with
        | None -> "NONE" | Some b -> "OK " ^ b01 b)
